@@ -128,7 +128,7 @@ class Case:
         self.spec = spec
         self.nodes = [(op, tuple(args)) for op, args in spec["nodes"]]
         self.req = spec["req"]
-        self.sig = sig_of("prog", {"nodes": spec["nodes"], "req": spec["req"]}, {"twice": True} if spec.get("twice") else None)
+        self.sig = sig_of("prog", {"nodes": spec["nodes"], "req": spec["req"]}, ({"twice": True, "retain": True} if spec.get("retain") else {"twice": True}) if spec.get("twice") else None)
 
     def build(self, leaves, order):
         vals = list(leaves) + [None] * len(self.nodes)
@@ -162,6 +162,12 @@ class Case:
             except RuntimeError:
                 out.fact("backward() refuses a root that does not require grad", True)
             return out
+        if self.spec.get("retain"):
+            # round k: every intermediate result keeps its gradient (retain_grad()); what a call leaves there is for the user to
+            # read - the next call from the same root still hands every leaf exactly its own VJP
+            for v in vals[n_leaves:-1]:
+                if v is not None and v.requires_grad and not v.is_leaf:
+                    v.retain_grad()
         g = env.arr("g", root.shape, lo=-2, hi=2)
         # (d) every recorded op reachable from the root fires exactly once, consumers before producers
         log = []
@@ -293,6 +299,9 @@ def enumerate_specs(tier, seed=0):
     base = [sp_ for sp_ in specs if "req" in sp_ and all(sp_["req"])]
     for sp_ in base[:: (12 if tier == "quick" else 6)]:
         specs.append(dict(sp_, twice=True))
+    for sp_ in base[3:: (12 if tier == "quick" else 6)]:
+        if len(sp_["nodes"]) >= 2:      # there is an intermediate result to retain
+            specs.append(dict(sp_, twice=True, retain=True))
     return specs
 
 
